@@ -37,7 +37,7 @@ macro_rules! with_list {
     };
 }
 
-fn push_new(m: &mut Module, k: usize, n: String) {
+pub(crate) fn push_new(m: &mut Module, k: usize, n: String) {
     match k {
         0 => m.axis_pts.push(AxisPts::new(n, s(""), 0, s("NO_INPUT_QUANTITY"), s("rl"), 0.0, s("NO_COMPU_METHOD"), 1, 0.0, 1.0)),
         1 => m.blob.push(Blob::new(n, s(""), 0, 1)),
